@@ -263,6 +263,23 @@ def stream_names(c, SI, N):
         c.case(('split', s), nontrivial=len(s) > 1); c.count('split:' + real.split('|')[0])
         if real != ans[i]:
             nbad += 1; c.broken_no_input('corr:_split_factors', 'model and implementation disagree', dict(stream='names', op='split', s=s, real=real, model=ans[i]))
+        # Dimension.create
+        m = ans[2 * n + i].split('|')
+        if s in SI.Dimension._Dimension__cache:
+            c.count('create:skipped-name-in-cache')
+        else:
+            try:
+                cls = SI.Dimension.create(s)
+                real = 'ok' if powers_of(cls) == {s: F(1)} else 'ok-wrong-powers'
+            except Exception as e: real = exc_name(e)
+            c.count('create:' + real)
+            m = ['ok' if m[0] == 'ok' else 'value' if m[0] == 'invalid' else 'stop' if m[0] == 'stop' else m[1], m[-1]]
+            if real == 'ok' and m[-1] != '1':
+                # the specification (ValidBase) says the name of this base is ambiguous
+                c.failing_input('dimension-create:accepts-ambiguous', 'Dimension.create accepts a symbol whose class name cannot be parsed back', dict(stream='names', op='create', s=s, model=ans[2 * n + i]))
+                nbad += 1
+            elif real != m[0]:
+                nbad += 1; c.broken_no_input('corr:Dimension.create', 'model and implementation disagree', dict(stream='names', op='create', s=s, real=real, model=ans[2 * n + i]))
         # Quantity.__getattr__('[s]')
         if ans[n + i].startswith('ok|') and ans[n + i].endswith('|0'):
             # a base symbol that Dimension.create rejects: the name cache is history dependent, and resolving such a name for real
@@ -276,22 +293,6 @@ def stream_names(c, SI, N):
         if real is None: pass
         elif real != ans[n + i].rsplit('|', 1)[0] if ans[n + i].startswith('ok|') else real != ans[n + i]:
             nbad += 1; c.broken_no_input('corr:Dimension.__getattr__', 'model and implementation disagree', dict(stream='names', op='getattr', s=s, real=real, model=ans[n + i]))
-        # Dimension.create
-        m = ans[2 * n + i].split('|')
-        if s in SI.Dimension._Dimension__cache:
-            continue
-        try:
-            cls = SI.Dimension.create(s)
-            real = 'ok' if powers_of(cls) == {s: F(1)} else 'ok-wrong-powers'
-        except Exception as e: real = exc_name(e)
-        c.count('create:' + real)
-        m = ['ok' if m[0] == 'ok' else 'value' if m[0] == 'invalid' else 'stop' if m[0] == 'stop' else m[1], m[-1]]
-        if real == 'ok' and m[-1] != '1':
-            # the specification (ValidBase) says the name of this base is ambiguous
-            c.failing_input('dimension-create:accepts-ambiguous', 'Dimension.create accepts a symbol whose class name cannot be parsed back', dict(stream='names', op='create', s=s, model=ans[2 * n + i]))
-            nbad += 1
-        elif real != m[0]:
-            nbad += 1; c.broken_no_input('corr:Dimension.create', 'model and implementation disagree', dict(stream='names', op='create', s=s, real=real, model=ans[2 * n + i]))
     c.obligation('corr:names', nbad == 0, 'correspondence', '%d strings x (split, getattr, create)' % n)
 
 
@@ -1435,22 +1436,28 @@ def stream_unitpy(c, N):
     from decimal import Decimal
     rng = c.rng
     systems = []
-    for _ in range(max(6, N // 25)):
+    for _ in range(max(6, N // 10)):
         base = {k: UNIT_BASE[k] for k in rng.sample(sorted(UNIT_BASE), rng.randint(2, 6))}
         if rng.random() < .8: base.setdefault('m', F(1)); base.setdefault('s', F(1)); base.setdefault('g', F(1, 1000))
-        der = {k: UNIT_DERIVED[k] for k in rng.sample(sorted(UNIT_DERIVED), rng.randint(0, 7))}
+        der = {}
+        for k in rng.sample(sorted(UNIT_DERIVED), rng.randint(0, 9)):
+            known = set(base) | set(der)
+            resolvable = all(w in known or (w[0] in UNIT_PREFIX and w[1:] in known) for w in re.findall(r'[a-zA-Zα-ωΑ-Ω]+', UNIT_DERIVED[k]))
+            if resolvable or rng.random() < .08: der[k] = UNIT_DERIVED[k]      # mostly resolvable systems, a few with unknown / cyclic references
         items = list(base.items()) + list(der.items()); rng.shuffle(items)
         defs = dict(items)
         names = sorted(defs) + ['q']
         reqs = []
-        for _ in range(25):
+        for _ in range(14):
             s_ = gen_unitpy_string(rng, names)
             if rng.random() < .2: s_ = corrupt_string(rng, s_)
             if not re.fullmatch(r'[0-9a-zA-Zα-ωΑ-Ω.+\-*/]*', s_): continue
             k = rng.random()
             if k < .5: reqs.append(('p', s_))
             elif k < .75: reqs.append(('c', s_))
-            else: reqs.append(('l', gen_unitpy_string(rng, names).lstrip('0123456789.*'), s_))
+            else:
+                un = gen_unitpy_string(rng, names).lstrip('0123456789.*')
+                reqs.append(('l', un, rng.choice(['2', '2.5', '.5', '100', '']) + un if rng.random() < .6 else s_))
         systems.append((defs, reqs))
     enc = lambda defs: ';'.join('%s=%s' % (k, '~' + v if isinstance(v, str) else rat(v)) for k, v in defs.items())
     ans = yield ['usys|%s|%s' % (enc(defs), ';'.join('~'.join(r) for r in reqs)) for defs, reqs in systems]
